@@ -161,14 +161,14 @@ func (rd *ReorgDetector) detectReorgInTrackedList(ctx context.Context) error {
 	}
 
 	var (
-		headersCacheLock = newHeadersCacheLock()
+		headersCacheLock sync.Mutex
 		headersCache     = map[uint64]*types.Header{
 			lastFinalisedBlock.Number.Uint64(): lastFinalisedBlock,
 		}
 		errGroup errgroup.Group
 	)
 
-	subscriberIDs := rd.getSubscriberIDs()
+	subscriberIDs := verifSubscriberOrder(rd.getSubscriberIDs())
 	startTime := time.Now()
 	for _, id := range subscriberIDs {
 		id := id
@@ -185,7 +185,7 @@ func (rd *ReorgDetector) detectReorgInTrackedList(ctx context.Context) error {
 
 		rd.log.Debugf("Checking reorgs in tracked blocks up to block %d", lastFinalisedBlock.Number.Uint64())
 
-		errGroup.Go(func() error {
+		verifGo(&errGroup, func() error {
 			headers := hdrs.getSorted()
 			for _, hdr := range headers {
 				// Get the actual header from the network or from the cache
